@@ -8,7 +8,7 @@ for f in sorted(glob.glob(os.path.join(V, 'seeded', '*', 'meta.json'))):
     m = json.load(open(f)); name = f.split('/')[-2]
     if name.startswith('benign-') or name.startswith('legit'):
         cl0 = lambda t: (t or '').replace('|', '/').replace('\n', ' ')
-        benign.append(f"| {name} | {cl0(m.get('summary'))[:260]} | {', '.join(sorted(m.get('quick_checks_run_against_it', {})))} | {', '.join(m.get('false_alarms') or ['none'])} |")
+        benign.append(f"| {name} | {cl0(m.get('summary'))[:260]} | {', '.join(sorted(m.get('quick_checks_run_against_it', {})))} | {', '.join(m.get('false_alarms') or ['none'])}{' (first run: ' + ', '.join(m['false_alarms_first_run']) + ' - corrected)' if m.get('false_alarms_first_run') else ''}{' - genuinely violates ' + ', '.join(m['genuine_violations']) + ', not a valid control' if m.get('genuine_violations') else ''} |")
         continue
     cl = lambda t: (t or '').replace('|', '/').replace('\n', ' ')
     rows.append(f"| {name} | {cl(m.get('category',''))[:3]} | {cl(m.get('summary'))[:220]} | {cl(m.get('needs_to_manifest'))[:200]} | {', '.join(m.get('caught_by') or ['—'])} |")
@@ -38,7 +38,11 @@ None of these patches is ever applied to /repo itself.
 independent sub-agents and verified by them with differential tests. `legit-<group>-<n>`: changes that DO alter observable
 behaviour but only in ways no property forbids (other tie-breaking, another valid spanning tree, another admissible label, ...);
 `legit2-<group>-<n>`: a second such round written after the round-4/5 strengthenings (other evaluation orders, other RNG APIs,
-header-tolerant loaders, re-associated arithmetic, Python-number graph state, ...).
+header-tolerant loaders, re-associated arithmetic, Python-number graph state, ...); `legit3-<group>-<n>`: a third round aimed at
+HOW AND WHEN internal steps run (results cached and reused, candidates installed as prefixes of one neighbour search, early stops,
+extra bookkeeping calls, deferred / lazy / fully sorted heaps, lazily parsed files). "first run" names checks that raised an alarm
+before a clause demanding more than its statement was corrected (DESIGN.md, Corrections log); two patches of the third round turned
+out to break C19 themselves (models can no longer be pickled) and are kept only as a record.
 Each was applied to a scratch worktree and the listed quick checks were run against it (`tools/allchecks_on_patch.sh`).
 
 | control | what was changed | checks run against it | false alarms |
